@@ -74,6 +74,8 @@ def _work(item):
                                     'where': where})
             if kind != 'abort':
                 ctx.end_path(params)
+            else:
+                ctx._reset()
             if time.time() - t0 > budget_s:
                 raise Inconclusive('cube exceeded its time budget of %ds'
                                    % budget_s)
